@@ -1,7 +1,188 @@
-(* Props/C10.v — placeholder while the proofs are being built *)
-From PV Require Import Model.C10Machine Spec.C10Spec.
-Theorem C10_placeholder : True.
-Proof. exact I. Qed.
-Print Assumptions C10_placeholder.
-Example C10_placeholder_ex : True.
-Proof. exact I. Qed.
+(* Props/C10.v — property C10: answers do not depend on query history or stream position.
+   Only statements, closed by [exact]; proofs live in Proofs/C10{Base,Tree,Elf,Units,Lines,Main,Top,Final}.v.
+
+   Model  Model/C10Machine.v: [step : state -> op -> state * answer], the transliteration of the caches
+          (_cu_offsets_map/_cu_cache, _diemap/_dielist, _abbrevtable_cache, _linetable_cache,
+          _section_name_map, _symbol_name_map, _num_tags, _decoded_entries), the object heaps with
+          _parent/_terminator, ONE cursor per stream, and the frames of live generators.
+   Spec   Spec/C10Spec.v: [query_spec F o], a function of the file and the query only, and [spec_step]
+          over iterator positions alone (no caches, no cursors, no objects).
+   Inv    Proofs/C10Base.v [Inv F s]: cursor list complete; cache key lists sorted, duplicate-free and
+          parallel to the object lists; every cached unit / entry / abbreviation table / line program is
+          the pure parse at its key; the first cached entry of a unit is its top entry; every entry object
+          is the one its unit's cache holds for its offset (identity); every set _parent / _terminator
+          link points to the object of the true parent / closing null entry; every memo field, when set,
+          equals the pure result.  [frames_rel F s afs] ties live generator frames to iterator positions.
+
+   PROVED for every operation except entry-tree navigation (get_parent and the resumption of
+   iter_children / iter_siblings / iter_DIEs generators): theorems named *_partial carry the hypothesis
+   [plain_ok] = valid query of the file, outside the known finding, not a navigation step.
+   The FULL statement is the same with [op_ok] in place of [plain_ok]; what is missing is the proof that
+   CompileUnit.iter_DIE_children / DIE._search_ancestor_offspring (model: children_next, children_drain,
+   search_loop, subtree_next, siblings_next) keep [Inv] and agree with [achildren_next] / [asubtree_next].
+   The invariant already states the link clauses those proofs need; the navigation operations are pinned
+   by the bounded-exhaustive correspondence of tools/harness/c10.py only. *)
+From PV Require Import Model.C10Types Model.C10Machine Spec.C10Spec.
+From PV Require Import Proofs.C10Base Proofs.C10Units Proofs.C10Final.
+From Coq Require Import ZArith List Bool.
+Import ListNotations.
+Open Scope Z_scope.
+
+(* ---- the invariant holds on a freshly opened object *)
+Theorem C10_inv_init : forall F n, Inv F (init_state n).
+Proof. exact Inv_init. Qed.
+Print Assumptions C10_inv_init.
+
+(* ---- the bisect-maintained unit cache is transparent: get_CU_at on the offset of a unit returns the
+   object of the pure parse of that unit, whatever was cached and wherever the cursors were *)
+Theorem C10_unit_cache_transparent : forall F, wf_file F = true -> forall fuel, (length (f_units F) < fuel)%nat ->
+  forall s u ud, Inv F s -> unit_at F u = Some ud ->
+  exists s' id, get_CU_at (parsers_of F) u s = (s', Ok id) /\ Inv F s' /\ ext s s' /\ cu_at s' id u.
+Proof. exact get_CU_at_ok. Qed.
+Print Assumptions C10_unit_cache_transparent.
+
+(* ---- get_CU_containing: the search started from the nearest cached unit finds the unit that contains
+   the address *)
+Theorem C10_unit_containing : forall F, wf_file F = true -> forall fuel, (length (f_units F) < fuel)%nat ->
+  forall s a, Inv F s -> 0 <= a < f_info_size F ->
+  exists ud s' id, unit_containing F a = Some ud /\ get_CU_containing (parsers_of F) fuel a s = (s', Ok id) /\
+                   Inv F s' /\ ext s s' /\ cu_at s' id (ud_off ud).
+Proof. exact get_CU_containing_ok. Qed.
+Print Assumptions C10_unit_containing.
+
+(* ---- inserting a freshly parsed entry at the bisect position keeps the per-unit cache sorted,
+   duplicate-free, parallel, headed by the top entry, and every object the pure parse at its key *)
+Theorem C10_entry_cache_insert : forall F, wf_file F = true -> forall fuel, (length (f_units F) < fuel)%nat ->
+  forall s cu c off e, Inv F s -> nth_error (cus s) cu = Some c ->
+  entry_at F (c_off c) off = Some e -> ~ In off (c_diemap c) ->
+  (c_diemap c = [] -> off = c_die_off c) -> c_die_off c <= off ->
+  let i := bisect_right (c_diemap c) off in
+  let f := fun c0 => set_c_cache c0 (list_insert i off (c_diemap c0)) (list_insert i (length (dies s)) (c_dielist c0)) in
+  let s' := set_cus (set_dies s (dies s ++ [mk_die cu off (en_raw e) None None])) (upd_nth cu f (cus s)) in
+  Inv F s' /\ ext s s' /\ die_at s' (length (dies s)) (c_off c) off.
+Proof. exact Inv_insert_die. Qed.
+Print Assumptions C10_entry_cache_insert.
+
+(* ---- the per-unit entry cache is transparent: _get_cached_DIE on the offset of an entry returns the
+   object of the pure parse of that entry (hit or miss, any cursor position) *)
+Theorem C10_entry_cache_transparent : forall F, wf_file F = true -> forall fuel, (length (f_units F) < fuel)%nat ->
+  forall s cu c off e, Inv F s -> nth_error (cus s) cu = Some c -> entry_at F (c_off c) off = Some e ->
+  exists s' id, get_cached_DIE (parsers_of F) cu off s = (s', Ok id) /\ Inv F s' /\ ext s s' /\
+                die_at s' id (c_off c) off.
+Proof. exact get_cached_DIE_ok. Qed.
+Print Assumptions C10_entry_cache_transparent.
+
+(* ---- one step of the machine refines one step of the reference machine and keeps the invariant *)
+Theorem C10_step_refines_partial : forall F, wf_file F = true -> forall fuel, fuel_ok F fuel = true ->
+  forall s afs o, Inv F s -> frames_rel F s afs -> plain_ok F afs o = true ->
+  snd (step (parsers_of F) fuel s o) = snd (spec_step F afs o) /\
+  Inv F (fst (step (parsers_of F) fuel s o)) /\
+  frames_rel F (fst (step (parsers_of F) fuel s o)) (fst (spec_step F afs o)).
+Proof. exact step_refines_plain. Qed.
+Print Assumptions C10_step_refines_partial.
+
+(* ---- ... lifted to every finite history, from any state that satisfies the invariant *)
+Theorem C10_history_refines_partial : forall F, wf_file F = true -> forall fuel, fuel_ok F fuel = true ->
+  forall h s afs, Inv F s -> frames_rel F s afs -> hist_ok F (plain_ok F) afs h = true ->
+  snd (run (parsers_of F) fuel s h) = snd (spec_run F afs h) /\
+  Inv F (fst (run (parsers_of F) fuel s h)) /\
+  frames_rel F (fst (run (parsers_of F) fuel s h)) (fst (spec_run F afs h)).
+Proof. exact history_refines_plain. Qed.
+Print Assumptions C10_history_refines_partial.
+
+(* ---- ... in particular from a freshly opened object: the answers of a history are those of the
+   reference machine, which has no caches and no cursors *)
+Theorem C10_history_independent_partial : forall F, wf_file F = true -> forall fuel, fuel_ok F fuel = true ->
+  forall n h, hist_ok F (plain_ok F) (repeat AFEmpty n) h = true ->
+  snd (run (parsers_of F) fuel (init_state n) h) = snd (spec_run F (repeat AFEmpty n) h).
+Proof. exact history_independent_plain. Qed.
+Print Assumptions C10_history_independent_partial.
+
+(* ---- a query asked after ANY history returns the stateless answer, which is also what a freshly
+   opened object returns *)
+Theorem C10_query_after_history_partial : forall F, wf_file F = true -> forall fuel, fuel_ok F fuel = true ->
+  forall n h o, hist_ok F (plain_ok F) (repeat AFEmpty n) h = true -> is_query o = true ->
+  plain_ok F (fst (spec_run F (repeat AFEmpty n) h)) o = true ->
+  snd (step (parsers_of F) fuel (fst (run (parsers_of F) fuel (init_state n) h)) o) = query_spec F o /\
+  snd (step (parsers_of F) fuel (init_state n) o) = query_spec F o.
+Proof. exact query_after_history. Qed.
+Print Assumptions C10_query_after_history_partial.
+
+(* ---- repeated identical queries return equal results, whatever happens in between *)
+Theorem C10_repeated_queries_equal_partial : forall F, wf_file F = true -> forall fuel, fuel_ok F fuel = true ->
+  forall n h1 h2 o, hist_ok F (plain_ok F) (repeat AFEmpty n) (h1 ++ o :: h2 ++ [o]) = true -> is_query o = true ->
+  let s1 := fst (run (parsers_of F) fuel (init_state n) h1) in
+  let s2 := fst (run (parsers_of F) fuel (init_state n) (h1 ++ o :: h2)) in
+  snd (step (parsers_of F) fuel s1 o) = snd (step (parsers_of F) fuel s2 o).
+Proof. exact repeated_queries_equal. Qed.
+Print Assumptions C10_repeated_queries_equal_partial.
+
+(* ---- sequential iteration and random access agree entry for entry: the element a generator yields
+   next is the answer of the offset / index query for that position, in every reachable state *)
+Theorem C10_iter_CUs_agrees : forall F, wf_file F = true -> forall fuel, fuel_ok F fuel = true ->
+  forall s afs slot off, Inv F s -> frames_rel F s afs -> nth slot afs AFEmpty = AFCUs off -> off < f_info_size F ->
+  valid_op F (CUAt off) = true /\ snd (step (parsers_of F) fuel s (Next slot)) = query_spec F (CUAt off).
+Proof. exact iter_CUs_agrees. Qed.
+Print Assumptions C10_iter_CUs_agrees.
+
+Theorem C10_iter_sections_agrees : forall F, wf_file F = true -> forall fuel, fuel_ok F fuel = true ->
+  forall s afs slot i, Inv F s -> frames_rel F s afs -> nth slot afs AFEmpty = AFSections i ->
+  in_table i (f_shdrs F) = true -> snd (step (parsers_of F) fuel s (Next slot)) = query_spec F (ESection i).
+Proof. exact iter_sections_agrees. Qed.
+Print Assumptions C10_iter_sections_agrees.
+
+Theorem C10_iter_symbols_agrees : forall F, wf_file F = true -> forall fuel, fuel_ok F fuel = true ->
+  forall s afs slot i, Inv F s -> frames_rel F s afs -> nth slot afs AFEmpty = AFSymbols i ->
+  in_table i (f_syms F) = true -> snd (step (parsers_of F) fuel s (Next slot)) = query_spec F (ESymbol i).
+Proof. exact iter_symbols_agrees. Qed.
+Print Assumptions C10_iter_symbols_agrees.
+
+Theorem C10_iter_tags_agrees : forall F, wf_file F = true -> forall fuel, fuel_ok F fuel = true ->
+  forall s afs slot n, Inv F s -> frames_rel F s afs -> nth slot afs AFEmpty = AFTags n false ->
+  valid_op F (EGetTag n) = true /\ snd (step (parsers_of F) fuel s (Next slot)) = query_spec F (EGetTag n).
+Proof. exact iter_tags_agrees. Qed.
+Print Assumptions C10_iter_tags_agrees.
+
+(* ---- the known finding (key lineprogram-header-file_entry-grows-after-get_entries): at full strength
+   the property is FALSE of the faithful model — LineProgram.get_entries() appends one entry per
+   DW_LNE_define_file to the shared header, so LineProg answers differently after LineEntries.  The
+   theorems above exclude exactly this: [op_ok] demands [no_define_file F] for the operation LineProg only *)
+Theorem C10_lineprog_file_entry_refuted :
+  exists F fuel h o, wf_file F = true /\ fuel_ok F fuel = true /\ forallb (valid_op F) (h ++ [o]) = true /\
+    is_query o = true /\
+    snd (step (parsers_of F) fuel (fst (run (parsers_of F) fuel (init_state 0) h)) o) <>
+    snd (step (parsers_of F) fuel (init_state 0) o).
+Proof. exact lineprog_file_entry_refuted. Qed.
+Print Assumptions C10_lineprog_file_entry_refuted.
+
+(* ---- non-vacuity: the hypotheses are satisfiable by a file with a unit of six entries, a line program,
+   call-frame information, sections, a symbol and dynamic tags, and by a history that interleaves unit,
+   entry, reference, line-program, CFI and ELF queries with stream repositioning and four live generators *)
+Example C10_ex_wf : wf_file ex_file = true /\ wf_file ex_file0 = true /\ fuel_ok ex_file 40 = true /\
+                    fuel_ok ex_file0 40 = true /\ no_define_file ex_file0 = true /\ no_define_file ex_file = false.
+Proof. vm_compute. repeat split. Qed.
+
+Definition ex_history : list op :=
+  [DIEAt 0 20; Disturb 1 7; CUAt 0; DIEAt 0 15; DIEAt 0 20; Disturb 1 0; TopDIE 0; CUContaining 17; DIEGlobal 22;
+   FollowRef 0 11 0; FollowRef 0 11 1; LineEntries 0; LineProg 0; LineEntries 0; CFI false; Disturb 0 3;
+   NewIterCUs 0; NewIterSections 1; Next 0; Next 1; ESectionByName 2; Next 1; Next 0; Next 1;
+   NewIterSymbols 0; NewIterTags 1; Next 0; Next 1; ESymbolByName 3; EGetTag 1; Next 1; EGetTag 2; ENumTags; Next 1;
+   ESection 1; ESegment 0; ESymbol 0; EString 0; ENumSections; NewIterDIEs 0 0; NewIterChildren 1 0 11;
+   NewIterSiblings 1 0 15; DIEAt 0 18].
+
+Example C10_ex_history_ok : hist_ok ex_file0 (plain_ok ex_file0) (repeat AFEmpty 2) ex_history = true /\
+  snd (run (parsers_of ex_file0) 40 (init_state 2) ex_history) = snd (spec_run ex_file0 (repeat AFEmpty 2) ex_history) /\
+  nth 9 (snd (run (parsers_of ex_file0) 40 (init_state 2) ex_history)) ANone = ADie 0 20 5 /\
+  nth 12 (snd (run (parsers_of ex_file0) 40 (init_state 2) ex_history)) ANone = AVals [200; 1].
+Proof. vm_compute. repeat split. Qed.
+
+(* the same history without LineProg is inside the theorem's domain on the file WITH DW_LNE_define_file *)
+Example C10_ex_history_ok_define_file :
+  hist_ok ex_file (plain_ok ex_file) (repeat AFEmpty 2) (filter (fun o => match o with LineProg _ => false | _ => true end) ex_history) = true.
+Proof. vm_compute. reflexivity. Qed.
+
+Example C10_ex_iter_agrees :
+  let s := fst (run (parsers_of ex_file0) 40 (init_state 2) [NewIterCUs 0; NewIterSections 1; Next 1]) in
+  snd (step (parsers_of ex_file0) 40 s (Next 0)) = AUnit 0 100 /\
+  snd (step (parsers_of ex_file0) 40 s (Next 1)) = AVals [2; 401].
+Proof. vm_compute. split; reflexivity. Qed.
